@@ -13,7 +13,8 @@ EXPLANATION = (
     "/ ends_with), otherwise an error exit; S3: StreamFrameReader::read returns a frame only on the true edge of buffered_len >= "
     "Frame::read_head(..) and returns Ok(None)/Err on EOF, and read_head and from_buffer compute the frame length from the same header "
     "fields; H1: exactly the bytes following the handshake are left for the tunnel (read-ahead drained). Follows the tokio contracts; the "
-    "equality over all cut sets is argued from these shapes, not enumerated.")
+    "equality over all cut sets is argued from these shapes, not enumerated."
+    " S4: in the head function of the stream frame decoder a condition derived from the amount buffered (remaining / len / is_empty, or a comparison against an unbounded view of the buffer) has no side that can only fail; S3's length forms do not see through sums that can wrap at a narrow width.")
 RULE_TEXT = "instances = read sites, delimiter reads, frame-return edges"
 TRUSTED = ["tokio read_exact/read_uN/read_line/read_until loop until satisfied or EOF"]
 NOT_DECIDED = ["equality of results over all cut sets (follows from S1-S3 given the tokio contracts; not enumerated)"]
@@ -80,6 +81,135 @@ def rule_s2(chk, prog, rule):
                             "%s accepts the result of %s without checking that the delimiter was actually read: input truncated by EOF (or by the "
                             "length limit) yields a fabricated, shorter field" % (f.path, m.group(1)))
     chk.floor(rule, nd, 2, "delimiter-terminated reads")
+
+
+_AMOUNT = re.compile(r"Buf::(remaining|has_remaining|chunk)$|::len$|::is_empty$|convert::AsRef::as_ref$|ops::deref::Deref::deref$|borrow::Borrow::borrow$")
+_AMOUNT_PASS = [r"slice::<impl \[T\]>::(starts_with|ends_with|contains|len|is_empty|first|last|iter)$", r"cmp::PartialEq::(eq|ne)$",
+                r"cmp::PartialOrd::(lt|le|gt|ge|partial_cmp)$", r"cmp::Ord::cmp$", r"ops::deref::Deref::deref$", r"convert::AsRef::as_ref$",
+                r"slice::cmp::<impl .*>::(eq|ne)$", r"array::equality::<impl .*>::(eq|ne)$"]
+
+
+def rule_amount(chk, prog, rule="S4"):
+    """The head function of the stream frame decoder sees whatever has been buffered so far, and that amount only grows.  A condition that
+    derives from the amount buffered -- remaining()/len()/is_empty(), or a comparison against an *unbounded* view of the buffer such as
+    chunk()/as_ref() (its length is the amount) -- may decide between `need more` and `go on`, never an error: if one side of such a
+    condition leads only to Err, the same byte stream is rejected under one segmentation and accepted under another.  Content is
+    inspected through fixed-width reads (get_u32 ..) or bounded slices, which do not depend on the amount once their guard holds."""
+    from ..flow import result_blocks
+    from .shared import _measure_root
+    sr = prog.find(r"StreamFrameReader<T> as common::frames::FrameReader>::read$", "redproxy_rs")
+    heads = []
+    if len(sr) == 1:
+        g0 = prog.body_of(sr[0])
+        for c in g0.calls:
+            t = prog.fns.get(c.target_key) if getattr(c, "target_key", None) else None
+            nm = c.name or ""
+            if re.search(r"frames::Frame::read_head$", nm):
+                heads += prog.find("^" + re.escape(nm) + "$", "redproxy_rs")
+    if len(heads) != 1:
+        chk.anchor_missing(rule, "the head function called by StreamFrameReader::read")
+        return
+    g = heads[0]
+    seeds = []
+    for c in g.calls:
+        if _AMOUNT.search(c.path or "") and c.args and c.dest:
+            r = _measure_root(g, c.args[0])
+            if r and 1 <= r[0] <= g.arg_count:
+                seeds.append(c.dest[0])
+        # `&buf[..]` / `&buf[n..]`: a view whose upper end is the amount
+        if re.search(r"ops::index::Index::index$", c.path or "") and len(c.args) == 2 and c.dest:
+            it = g.local_ty_s(op_base(c.args[1])) if op_base(c.args[1]) is not None else ""
+            r = _measure_root(g, c.args[0])
+            if re.search(r"RangeFull|RangeFrom<", it) and r and 1 <= r[0] <= g.arg_count:
+                seeds.append(c.dest[0])
+    tracked, cons = flow_forward(g, seeds, _AMOUNT_PASS)
+    tracked = set(tracked)
+    oks = set(result_blocks(g, "Ok"))
+    errs = set(result_blocks(g, "Err")) | set(c.bb for c in g.calls if re.search(r"FromResidual::from_residual$", c.path or ""))
+    n = 0
+    bad = []
+    seen = set()
+    for b in sorted(g.reachable):
+        t = g.term(b)
+        if not t or t["k"] != "switch":
+            continue
+        d = op_base(t["d"])
+        if d is None:
+            continue
+        # the switched value derives from a tracked one (through Not / comparisons with constants)
+        hit = d in tracked
+        if not hit:
+            dd = g.single_def(d)
+            depth = 0
+            while dd and dd[1] != "term" and depth < 4 and not hit:
+                rv = dd[2]
+                ops = [rv.get("a"), rv.get("b")] if rv["k"] in ("binop", "unop", "use", "cast") else []
+                nxt = None
+                for o in ops:
+                    l = op_base(o) if o else None
+                    if l is not None and l in tracked:
+                        hit = True
+                    elif l is not None and nxt is None:
+                        nxt = l
+                dd = g.single_def(nxt) if (nxt is not None and not hit) else None
+                depth += 1
+        if not hit or b in seen:
+            continue
+        seen.add(b)
+        n += 1
+        succs = []
+        for v, x in t["ts"]:
+            if x not in succs:
+                succs.append(x)
+        if t["o"] not in succs:
+            succs.append(t["o"])
+        for x in succs:
+            r = g.reach_from([x])
+            if (r & errs) and not (r & oks):
+                bad.append((b, x))
+    ok = n >= 1 and not bad
+    why = "%d condition(s) derived from the buffered amount; %d of them with a side that can only fail" % (n, len(bad))
+    chk.instance(rule, "%s:%s" % (g.file, g.line), "%s: the buffered amount decides `need more`, never an error" % g.path, ok, why)
+    if not ok:
+        chk.finding(rule, g.key, "amount-decides-error", "", "%s:%s" % (g.file, g.line),
+                    "%s rejects input on a condition derived from how much has been buffered so far (%s; switch at bb%s): a frame header that "
+                    "arrives in pieces is refused although the same bytes in one piece are accepted -- decoding depends on the segmentation "
+                    "of the stream" % (g.path, why, ",".join(str(b) for b, x in bad)))
+
+
+def rule_head_agreement(chk, prog, rule="S3"):
+    """read_head vs from_buffer: same header fields and the same (non-wrapping) length arithmetic"""
+    def head_consts(pat):
+        f = prog.one(pat)
+        gets = [re.search(r"get_(\w+)$", c.path).group(1) for c in sorted([c for c in f.calls if re.search(r"Buf::get_(u8|u16|u32)$", c.path or "")],
+                                                                              key=lambda c: len([x for x in f.calls if f.dominates(x.bb, c.bb)]))]
+        consts = sorted(set(const_int(o) for b in f.reachable for st in f.stmts(b) if st["k"] == "assign" and st["rv"]["k"] == "binop"
+                            for o in (st["rv"]["a"], st["rv"]["b"]) if const_int(o) is not None and const_int(o) >= 8))
+        return gets, consts
+    g1, c1 = head_consts(r"^common::frames::Frame::read_head$")
+    g2, c2 = head_consts(r"^common::frames::Frame::from_buffer$")
+    from .bytebudget import linform, bufops
+    W = {"u8": 1, "u16": 2, "u32": 4, "u64": 8}
+    hdr = sum(W[x] for x in g1)
+    rh = prog.one(r"^common::frames::Frame::read_head$")
+    k1 = None
+    for b in rh.reachable:
+        for st in rh.stmts(b):
+            if st["k"] == "assign" and st["rv"]["k"] == "agg" and st["rv"].get("variant") == "Some" and st["rv"]["ops"]:
+                lf = linform(rh, st["rv"]["ops"][0])
+                if lf is not None and len(lf) >= 3:
+                    k1 = lf.get(1, 0)
+    fb = prog.one(r"^common::frames::Frame::from_buffer$")
+    adv = [fb.int_of(c.args[1]) for c in fb.calls if re.search(r"Buf::advance$", c.path or "")]
+    k2 = sorted(set(lb.get(1, 0) for (gs, sb, tb, lb, lc) in bufops(fb).guards if len(lb) >= 3))
+    ok = g1 == g2 and k1 == hdr and adv == [hdr] and k2 == [hdr]
+    chk.instance(rule, "src/common/frames.rs", "read_head and from_buffer agree on the header: fields %s, size %d" % (g1, hdr), ok,
+                 "read_head length const %s, from_buffer guard const %s, advance %s" % (k1, k2, adv))
+    if not ok:
+        chk.finding(rule, "common::frames::Frame", "head-agreement", "", "src/common/frames.rs",
+                    "Frame::read_head (fields %s, frame length = %s + attr + body) and Frame::from_buffer (fields %s, guard %s + attr + body, advance %s) "
+                    "no longer agree with the %d-byte header: the stream reader cuts frames at the wrong place" % (g1, k1, g2, k2, adv, hdr))
+
 
 
 def run(chk, prog):
@@ -234,37 +364,8 @@ def run(chk, prog):
                                 "frames depend on how the stream was segmented")
         chk.floor("S3-fresh", nfresh, 1, "fresh carry-over buffer assignments in StreamFrameReader::read")
 
-    # read_head vs from_buffer: same header arithmetic
-    def head_consts(pat):
-        f = prog.one(pat)
-        gets = [re.search(r"get_(\w+)$", c.path).group(1) for c in sorted([c for c in f.calls if re.search(r"Buf::get_(u8|u16|u32)$", c.path or "")],
-                                                                              key=lambda c: len([x for x in f.calls if f.dominates(x.bb, c.bb)]))]
-        consts = sorted(set(const_int(o) for b in f.reachable for st in f.stmts(b) if st["k"] == "assign" and st["rv"]["k"] == "binop"
-                            for o in (st["rv"]["a"], st["rv"]["b"]) if const_int(o) is not None and const_int(o) >= 8))
-        return gets, consts
-    g1, c1 = head_consts(r"^common::frames::Frame::read_head$")
-    g2, c2 = head_consts(r"^common::frames::Frame::from_buffer$")
-    from .bytebudget import linform, bufops
-    W = {"u8": 1, "u16": 2, "u32": 4, "u64": 8}
-    hdr = sum(W[x] for x in g1)
-    rh = prog.one(r"^common::frames::Frame::read_head$")
-    k1 = None
-    for b in rh.reachable:
-        for st in rh.stmts(b):
-            if st["k"] == "assign" and st["rv"]["k"] == "agg" and st["rv"].get("variant") == "Some" and st["rv"]["ops"]:
-                lf = linform(rh, st["rv"]["ops"][0])
-                if lf is not None and len(lf) >= 3:
-                    k1 = lf.get(1, 0)
-    fb = prog.one(r"^common::frames::Frame::from_buffer$")
-    adv = [fb.int_of(c.args[1]) for c in fb.calls if re.search(r"Buf::advance$", c.path or "")]
-    k2 = sorted(set(lb.get(1, 0) for (gs, sb, tb, lb, lc) in bufops(fb).guards if len(lb) >= 3))
-    ok = g1 == g2 and k1 == hdr and adv == [hdr] and k2 == [hdr]
-    chk.instance("S3", "src/common/frames.rs", "read_head and from_buffer agree on the header: fields %s, size %d" % (g1, hdr), ok,
-                 "read_head length const %s, from_buffer guard const %s, advance %s" % (k1, k2, adv))
-    if not ok:
-        chk.finding("S3", "common::frames::Frame", "head-agreement", "", "src/common/frames.rs",
-                    "Frame::read_head (fields %s, frame length = %s + attr + body) and Frame::from_buffer (fields %s, guard %s + attr + body, advance %s) "
-                    "no longer agree with the %d-byte header: the stream reader cuts frames at the wrong place" % (g1, k1, g2, k2, adv, hdr))
+    rule_head_agreement(chk, prog, "S3")
+    rule_amount(chk, prog, "S4")
 
     # ---------------------------------------------------------------- H1
     shared.rule_h1(chk, prog)
